@@ -3,6 +3,8 @@
 ENGINES = [
     {'name': 'EQ', 'path': 'vf/eq.py, vf/sem.py', 'serves_properties': ['C08', 'C09', 'C10', 'C13', 'C14'],
      'kind_free_text': 'real hpl.rewrite / hpl.ast code run on enumerated trees; input and output ASTs translated to quantifier-free z3 terms; equivalence decided for all valuations; models replayed through an independent Python evaluator'},
+    {'name': 'TR', 'path': 'vf/tr.py', 'serves_properties': ['C12'],
+     'kind_free_text': 'z3 formula of the reference trace semantics generated from real HplProperty objects over a symbolic timed trace; Python evaluator for replay'},
     {'name': 'SX', 'path': 'vf/sx.py, vf/harness/', 'serves_properties': ['C08', 'C11', 'C14'],
      'kind_free_text': 'CrossHair symbolic execution of harness functions that drive the real hpl code with symbolic literal values, valuations, widths, time bounds and metadata; one process per condition, reachability twin per harness'},
     {'name': 'SF', 'path': 'vf/sf.py', 'serves_properties': ['C20'],
@@ -67,5 +69,13 @@ CHECKS.update({
         'technique': 'CrossHair symbolic execution over literal values + z3-decided licences on enumerated API calls',
     },
 })
+
+CHECKS['C12'] = {
+    'engine': 'TR', 'category': 'model_checking', 'design_ref': 'DESIGN.md 1 (TR), 3.3, 4 (C12)',
+    'text': ('Bounded model checking in z3: for every enumerated property shape the real canonical_form output is compared with the input over ALL timed traces up to the '
+             'length bound (symbolic topics, real timestamps, payloads), under two readings of scope re-activation; hand-made wrong splits must be distinguished (vacuity guard).'),
+    'note': 'Trusted: z3; the reference trace semantics of DESIGN.md 3.3 (docs/lang.md is informal), implemented twice (z3 generator and Python evaluator used for replay).',
+    'technique': 'z3 bounded model checking over symbolic timed traces of the real canonical_form output vs input',
+}
 
 NOT_APPLICABLE = {}
